@@ -67,6 +67,9 @@ class Axis:
 
 def selection(axes, dims):
     """(result extents, list of flat parent offsets in row-major result order)"""
+    if len(axes) == 1 and axes[0].kind == 'diag':       # diag(a) of a square matrix: the rank-1 view of its diagonal
+        assert len(dims) == 2 and dims[0] == dims[1]
+        return [dims[0]], [i * dims[1] + i for i in range(dims[0])]
     per_axis = [ax.indices(n) for ax, n in zip(axes, dims)]
     ext = [len(p) for p in per_axis]
     sel = [flat(idx, dims) for idx in itertools.product(*per_axis)]
@@ -74,6 +77,8 @@ def selection(axes, dims):
 
 
 def admissible(axes, dims):
+    if len(axes) == 1 and axes[0].kind == 'diag':
+        return True
     for ax, n in zip(axes, dims):
         idx = ax.indices(n)
         if not idx or min(idx) < 0 or max(idx) >= n:
@@ -84,6 +89,8 @@ def admissible(axes, dims):
 
 
 def view_call(axes, obj='a'):
+    if len(axes) == 1 and axes[0].kind == 'diag':
+        return 'diag(%s)' % obj, []
     names, args, k = [], [], 0
     for ax in axes:
         an = ['p%d' % (k + i) for i in range(ax.nargs())]
@@ -119,6 +126,23 @@ def mk_read(t, dims, axes, variant='plain'):
         stages = [{'mod': 'wit', 'fn': '@W@', 'args': ['a', 'r'] + int_args(axes)}]
         obl = [{'kind': 'copy', 'region': 'r', 'ns': 'a', 'map': [q * per + c for q in sel for c in range(per)]}]
         ref = ''
+    elif variant in ('iadd', 'miadd', 'sum', 'msum'):
+        # consumers that read the view through its LINEAR vector evaluator eval(idx) (compound assignment into a tensor, reductions);
+        # plain assignment of a rank-2 view goes through the two-index evaluator instead
+        const = '' if variant.startswith('m') else 'const '
+        ct = CTYPE[cell]
+        if variant.endswith('iadd'):
+            wit = 'extern "C" void @W@(%s%s& a, const %s& b, %s& r%s){ r = b; r += %s; }' % (const, tensor_t(t, dims), tensor_t(t, ext), tensor_t(t, ext), params, call)
+            regions += [treg('b', t, ext), treg('r', t, ext, 'out'), rreg('rref', t, len(sel)), {'name': 'idx', 'ety': 'i32', 'cells': len(sel), 'kind': 'raw', 'role': 'in', 'init': 'ints', 'ints': sel}]
+            ref = 'extern "C" void @R@(const %s* a, const %s* b, %s* r, const int* idx){ for(int k=0;k<%d;k++){ %s x = b[k]; x += a[idx[k]]; r[k] = x; } }' % (ct, ct, ct, len(sel), ct)
+            stages = [{'mod': 'wit', 'fn': '@W@', 'args': ['a', 'b', 'r'] + int_args(axes)}, {'mod': 'ref', 'fn': '@R@', 'args': ['a', 'b', 'rref', 'idx']}]
+            obl = [{'kind': 'equal', 'a': 'r', 'b': 'rref', 'cells': len(sel), 'mode': 'ALG'}]
+        else:
+            wit = 'extern "C" void @W@(%s%s& a, %s* r%s){ *r = sum(%s); }' % (const, tensor_t(t, dims), ct, params, call)
+            regions += [rreg('r', t, 1, role='out'), rreg('rref', t, 1), {'name': 'idx', 'ety': 'i32', 'cells': len(sel), 'kind': 'raw', 'role': 'in', 'init': 'ints', 'ints': sel}]
+            ref = 'extern "C" void @R@(const %s* a, %s* r, const int* idx){ %s x = 0; for(int k=0;k<%d;k++) x += a[idx[k]]; *r = x; }' % (ct, ct, ct, len(sel))
+            stages = [{'mod': 'wit', 'fn': '@W@', 'args': ['a', 'r'] + int_args(axes)}, {'mod': 'ref', 'fn': '@R@', 'args': ['a', 'rref', 'idx']}]
+            obl = [{'kind': 'equal', 'a': 'r', 'b': 'rref', 'cells': 1, 'mode': 'ALG'}]
     else:                        # inside an arithmetic expression
         wit = 'extern "C" void @W@(%s%s& a, const %s& b, %s& r%s){ r = %s + b; }' % ('' if variant == 'mexpr' else 'const ', tensor_t(t, dims), tensor_t(t, ext), tensor_t(t, ext), params, call)
         regions += [treg('b', t, ext), treg('r', t, ext, 'out'), rreg('rref', t, len(sel)), {'name': 'idx', 'ety': 'i32', 'cells': len(sel), 'kind': 'raw', 'role': 'in', 'init': 'ints', 'ints': sel}]
